@@ -532,3 +532,17 @@ def batch_quantifier(idx, loop, tol_names=None):
         return True, f"continues while `{txt}`: any column still above its threshold keeps the shared iteration going"
     return False, (f"continues while `{txt}`, i.e. {'only while EVERY column is still above' if s == ('all', 'active') else 'while some column is already below'} the threshold: "
                    "the shared iteration stops as soon as one column of a batch has converged or broken down, truncating the factorisation of the others")
+
+
+def falsy_numeric_defaults(fi):
+    """`p or <number>` on a parameter p: Python's `or` replaces every falsy value, so an explicit 0 (zero iterations, zero tolerance, offset
+    0) silently becomes the default.  -> list of (node, parameter, constant).  (`p if p is not None else c` is the form that keeps 0.)"""
+    out = []
+    params = set(fi.params) | {a.arg for a in fi.node.args.kwonlyargs}
+    for n in df.body_nodes(fi.node):
+        if isinstance(n, ast.BoolOp) and isinstance(n.op, ast.Or) and len(n.values) == 2 and isinstance(n.values[0], ast.Name) and n.values[0].id in params:
+            c = n.values[1]
+            if isinstance(c, ast.Constant) and isinstance(c.value, (int, float)) and not isinstance(c.value, bool):
+                # the parameter as it was passed: not re-bound before this point (or re-bound by this very statement)
+                out.append((n, n.values[0].id, c.value))
+    return out
